@@ -1025,6 +1025,7 @@ func runC08(tier, replay string) int {
 	}
 	r.Extra("identity_histories(time:keys)", hs)
 	r.Extra("exhaustive", false)
+	r.Extra("added_in_seeding_round_6", "every second identity version edits the key list handed out by the mutator in place (append(m.Keys[:0], ...)) instead of assigning a new slice")
 	return r.Finish("pairs (identity version history with 1..4 versions adding/removing/rotating 0..2 keys at steered bugs-edit times) x (commit at every T from first-1 to last+1) x (crafted: unsigned, right key, second right key, removed key, not-yet-valid key, stranger's key, altered tree, altered timestamp; git-bug itself: private key available / not available) x (create, append, empty merge commit) x (reader with public keys only / reader resolving the author to an in-memory identity holding private keys); expectation from the independent model over the raw version blobs and the raw commit object; observed = bug.Read error and bug.MergeAll status on the second replica; non-trivial = every conclusive pair; distinct = (versions, keys in force, relation of T to the version times, writer, signing mode, kind, reader, expectation)"+
 		" || timeline scripts: the keyed author edits its identity in several steps (Mutate of keys / of the profile, SetMetadata, Commit now or later, first version still pending) while a keyless author's commits or witnessed times move the edit clock and the author itself writes signed commits in between; the harness records (clock value at the Mutate that changed the key set, new key set); crafted commits (unsigned, every key of the history, a stranger's key) at c-1, c, c+1 of every change and the author's own commits are read and merged on a second replica; expected = key model over that timeline, no expectation where reading a change at clock value c as 'from c' or 'from c+1' gives different verdicts; also ValidKeysAtTime of the stored identity against the timeline; one case per script, distinct = sequence of step kinds"+
 		" || long-lived cache sessions: a victim keeps one RepoCache open, pulls and loads a bug of the keyed author, then the author changes keys in 1..3 rounds on another replica and pushes the new identity version with commits in its name at c-1, c, c+1 signed by old/new/stranger's/no key, a commit written by git-bug with the new key and a commit appended to a bug the victim holds; the victim pulls with Pull or Fetch+MergeAll, everything at once, identity first or bugs first; every remote bug differing from the local one is judged with the key model over the identity versions in the victim's repository at that moment; observed = merge status and local ref movement through the long-lived cache, the same pulls on a shadow replica with the plain entity functions, Resolve through the long-lived cache, and a freshly opened cache over the victim's repository at the end; one case per session, distinct = (initial keys, preload, per round: kind of key change, delivery, carrier signing)"+
